@@ -6,12 +6,12 @@ open Lace Lace.Driver Lace.Dbg Lace.Cmd
 
 namespace Lace.Driver
 
-/-- number of error reports before the `k`-th successfully parsed command (all of them if the
-reader reached the end of input) -/
+/-- number of error reports made while reading the first `k` commands (`k` counts the
+end-of-input read too, so all of them if the reader reached the end of input) -/
 def errorsBefore : List (Option Command) → Nat → Nat
+  | _, 0 => 0
   | [], _ => 0
-  | none :: rest, k => 1 + errorsBefore rest k
-  | some _ :: _, 0 => 0
+  | none :: rest, k + 1 => 1 + errorsBefore rest (k + 1)
   | some _ :: rest, k + 1 => errorsBefore rest k
 
 def handleT09 (toks : List String) : String :=
